@@ -471,6 +471,7 @@ where
         // At this point, we ought to be at the end of the message.
         if !context.received.at_eom() {
             context.response.set_rcode(Rcode::FORMERR);
+            return;
         }
         context.received.rewind();
 
